@@ -9,6 +9,7 @@ CONSTANTS
   Ops = {"create", "attr", "data", "link", "delete"}
   Faults = {}
   Script <- Script_Links
+  CopyKeep = {}
 VIEW View
 INVARIANT TypeOK
 INVARIANT NameUnique
